@@ -1,6 +1,7 @@
 package main
 
 import (
+	"bytes"
 	"fmt"
 	"reflect"
 	"strings"
@@ -570,6 +571,66 @@ func c05Stale(c *vlib.Ctx) {
 			}
 			c.Count("reuse_comparisons", 1)
 		}
+		c.End()
+	}
+	// every other layer type that offers in-place decoding: one object reused along a sequence of its own inputs against
+	// a fresh object per input (DecodeFromBytes called directly, as a parser does)
+	base := (n + chunk - 1) / chunk
+	var dts []gopacket.LayerType
+	for _, t := range cp.Types {
+		if _, ok := dlTypes[t]; ok {
+			dts = append(dts, t)
+		}
+	}
+	for ti, t := range dts {
+		if !c.Begin(base + 1 + ti) {
+			continue
+		}
+		r := c.Rand(uint64(t), 777)
+		reused := newDecodingLayer(t)
+		cnt := 0
+		for j := 0; j < c.Pick(300, 3000) && reused != nil; j++ {
+			b, how := cp.Input(r, t)
+			if len(b) > 8192 {
+				b = b[:8192]
+			}
+			fresh := newDecodingLayer(t)
+			var e1, e2 error
+			if pi := vlib.Guard(func() { e1 = reused.DecodeFromBytes(b, gopacket.NilDecodeFeedback) }); pi != nil {
+				reused = newDecodingLayer(t)
+				continue
+			}
+			if pi := vlib.Guard(func() { e2 = fresh.DecodeFromBytes(b, gopacket.NilDecodeFeedback) }); pi != nil {
+				continue
+			}
+			c.Evals(1)
+			det := map[string]any{"layer": t.String(), "input_hex": hx(b), "mutation": how, "position_in_sequence": j}
+			if (e1 == nil) != (e2 == nil) {
+				c.Violation("stale-state:single:"+typeKey(t)+":error", fmt.Sprintf("%s.DecodeFromBytes into a previously used object returns err=%v, into a fresh object err=%v", t, e1, e2), det)
+				reused = newDecodingLayer(t)
+				continue
+			}
+			if e1 != nil {
+				reused = newDecodingLayer(t) // what a failed decode leaves behind is not a result
+				continue
+			}
+			cnt++
+			if sig.Exported(reused) != sig.Exported(fresh) {
+				path, desc := sig.ExportedDiff(reused, fresh)
+				c.Violation("stale-state:single:"+typeKey(t)+":"+path, fmt.Sprintf("%s decoded into a previously used object differs from the same bytes decoded into a fresh object: %s", t, desc), det)
+				reused = newDecodingLayer(t)
+				continue
+			}
+			var nt1, nt2 gopacket.LayerType
+			var p1, p2 []byte
+			vlib.Guard(func() { nt1, p1 = reused.NextLayerType(), reused.LayerPayload() })
+			vlib.Guard(func() { nt2, p2 = fresh.NextLayerType(), fresh.LayerPayload() })
+			if nt1 != nt2 || !bytes.Equal(p1, p2) {
+				c.Violation("stale-state:single:"+typeKey(t)+":next-layer-or-payload", fmt.Sprintf("%s decoded into a previously used object: next layer %v / %d payload bytes, fresh object %v / %d", t, nt1, len(p1), nt2, len(p2)), det)
+				reused = newDecodingLayer(t)
+			}
+		}
+		c.Count("single_layer_reuse_comparisons", cnt)
 		c.End()
 	}
 }
